@@ -86,6 +86,48 @@ def impl_mode(prog, bounds, sl, with_spec=True):
     return setup
 
 
+def trait_mode(prog, bounds, variant='entrait', sl=None, with_spec=True):
+    gen = inputs.Gen(prog, bounds)
+    set_fixed(prog, sl.get('fixed', ()))
+
+    def setup(ex):
+        attr = inputs.trait_attr(gen, 'attr', sl)
+        item = inputs.input_trait(gen, 'trait', sl)
+        ex.notes['input'] = dict(mode='trait', variant=variant, gen=gen, sl=sl)
+
+        def target(ex, attr, item):
+            attr0, item0 = clone_val(attr), clone_val(item)
+            apply_variant(ex, variant, Ptr(attr.fields, attr.names.index('opts')))
+            out = ex.run_body(prog.bodies['output_tokens'], [attr, item])
+            if with_spec:
+                from . import spec
+                ex.notes['obligations'] = spec.spec_trait_mode(ex, variant, attr0, item0, out)
+            return out
+        return target, [attr, item]
+    return setup
+
+
+def trait_attr_source(attr, model, name_of, P):
+    parts = []
+    it = attr.f('impl_trait')
+    if it.variant == 'Some':
+        v = P.flat([('N', 'vis', it.fields[0].fields[0])])
+        from . import replay
+        parts.append((replay.to_source(v) + ' ' if v else '') + name_of(it.fields[0].fields[1].name))
+    from . import replay
+    parts += [p for p in replay.opts_source(attr.f('opts'), model)]
+    dk = attr.f('delegation_kind')
+    if dk.variant == 'Some':
+        d = dk.fields[0].fields[0]
+        if d.variant == 'BySelf':
+            parts.append('delegate_by')
+        elif d.variant == 'ByRef':
+            parts.append('delegate_by = ref' if d.fields[0].variant == 'AsRef' else 'delegate_by = Borrow')
+        else:
+            parts.append('delegate_by = ' + name_of(d.fields[0].name))
+    return ', '.join(parts)
+
+
 def rebuild_input(prog, pr):
     """deterministically re-create (attr, item) of a finished path, fully resolved: decisions of the path, default
     (first) alternative for everything the macro never looked at"""
